@@ -237,6 +237,9 @@ def adversarial(draw, allow_conflicts):
                 terms.append(v)
         if draw(st.integers(0, 4)) == 0:
             terms.append(scalar_expr(1))
+        if draw(st.integers(0, 5)) == 0:
+            # a purely scalar value assigned to an array / user-type variable (unify widens it)
+            return scalar_expr(1)
         terms = list(draw(st.permutations(terms)))
         return terms[0] if len(terms) == 1 else ["sum"] + terms
 
